@@ -26,7 +26,10 @@ theorem process_eq (se : Sx.Env) (path : QStr) :
   simp only [Sx.err, Sx.invoke, Sx.defer, List.nil_append]
   cases h : SlotHandler.lookup se.regs path with
   | none => simp
-  | some m => simp only [Option.isSome_some, Bool.not_true, Option.getD_some]; split <;> simp_all
+  | some m =>
+    simp only [Option.isSome_some, Bool.not_true, Option.getD_some]
+    by_cases hr : m.readAll = true <;> by_cases hb : se.sock.total ≤ (Sock.bytesAvailable se.sock : Int) <;>
+      first | (simp [hr, hb]; done) | (simp_all; done) | (simp_all; omega) | grind
 
 /-- hence what `process` makes happen at `headersParsed` is the model's reaction `SlotHandler.onHp` -/
 theorem process_onHp (se : Sx.Env) (path : QStr) :
